@@ -255,3 +255,17 @@ M("c11-scan-raise-at-end", "C11", "start-captured", (LX, '                    "l
 M("c11-expr-node-at-end", "C11", "start-captured", (LX, "            escapes.strip(),\n            lineno=line,\n            pos=pos,", "            escapes.strip(),"))
 M("c11-string-path-no-filename", "C11", "same-on-all-paths", (T, "            code, module = _compile_text(self, text, filename)\n            self._code = code\n            self._source = text", "            code, module = _compile_text(self, text, None)\n            self._code = code\n            self._source = text"))
 M("c11-raise-no-position", "C11", "position-carried", (PT, '            raise exceptions.CompileException(\n                "Missing parenthesis in %def", **self.exception_kwargs\n            )', '            raise exceptions.CompileException(\n                "Missing parenthesis in %def", None, 0, 0, None\n            )'))
+
+# ---------------------------------------------------------------- C19
+AU = "mako/_ast_util.py"
+M("c19-no-pow", "C19", "regen-exhaustive", (AU, '    Pow: "**",\n', ""))
+M("c19-kwargs-crash", "C19", "regen-exhaustive", (AU, "            if keyword.arg is None:\n                self.write(\"**\")\n            else:\n                self.write(keyword.arg + \"=\")\n            self.visit(keyword.value)\n        if getattr(node, \"starargs\", None):\n            write_comma()\n            self.write(\"*\")\n            self.visit(node.starargs)\n        if getattr(node, \"kwargs\", None):\n            write_comma()\n            self.write(\"**\")\n            self.visit(node.kwargs)\n        self.write(\")\")\n\n    def visit_Name", "            self.write(keyword.arg + \"=\")\n            self.visit(keyword.value)\n        if getattr(node, \"starargs\", None):\n            write_comma()\n            self.write(\"*\")\n            self.visit(node.starargs)\n        if getattr(node, \"kwargs\", None):\n            write_comma()\n            self.write(\"**\")\n            self.visit(node.kwargs)\n        self.write(\")\")\n\n    def visit_Name"))
+M("c19-ifexp-operand-bare", "C19", "regen-precedence", (AU, "        if isinstance(node, (IfExp, Lambda)):\n            self.write(\"(\")\n            self.visit(node)\n            self.write(\")\")\n        else:\n            self.visit(node)", "        self.visit(node)"))
+M("c19-fallback-removed", "C19", "regen-exhaustive", (AU, "        if isinstance(node, expr):\n            self.write(\"(%s)\" % unparse(node))\n        else:\n            NodeVisitor.generic_visit(self, node)", "        NodeVisitor.generic_visit(self, node)"))
+M("c19-compare-drops-comparators", "C19", "regen-exhaustive", (AU, "        for op, right in zip(node.ops, node.comparators):\n            self.write(\" %s \" % CMPOP_SYMBOLS[type(op)])\n            self.visit_operand(right)", "        for op in node.ops[:0]:\n            self.write(\" %s \" % CMPOP_SYMBOLS[type(op)])"))
+M("c19-vararg-unbound", "C19", "idents-fields", (P, "        if args.vararg:\n            argnames.append(arg_id(args.vararg))\n", ""))
+M("c19-defaults-unvisited", "C19", "idents-fields", (P, "        for default in args.defaults + args.kw_defaults:\n            if default is not None:\n                self.visit(default)\n", ""))
+M("c19-comp-elt-skipped", "C19", "idents-fields", (P, "                for if_ in comp.ifs:\n                    self.visit(if_)\n            self.visit(node.elt)\n", "                for if_ in comp.ifs:\n                    self.visit(if_)\n"))
+M("c19-expression-keeps-own-bindings", "C19", "idents-consumers", (PT, "        ).difference(self.code.declared_identifiers)\n\n    def __repr__(self):\n        return \"Expression(", "        )\n\n    def __repr__(self):\n        return \"Expression("))
+M("c19-printer-counts-comment-quotes", "C19", "remargin-siblings", (PG, "                m = re.match(r\".*?(\\\"\\\"\\\"|\\'\\'\\'|#)\", line)\n                if not m or m.group(1) == \"#\":\n                    break", "                m = re.match(r\".*?(\\\"\\\"\\\"|\\'\\'\\')\", line)\n                if not m:\n                    break"))
+M("c19-benign-rename-helper", "C19", "silent", (AU, "        # conditional expressions and lambdas bind looser than any\n", "        # (comment) conditional expressions and lambdas bind looser than any\n"))
